@@ -1204,6 +1204,11 @@ class Flow(NLRI):
         over = data[length:]
         packed = bytes(data[:length])
 
+        # RFC 8955 8: a flow-vpn NLRI starts with an 8 octet route distinguisher.  One which is
+        # too short to hold it must not be read as a rule without RD.
+        if safi == SAFI.flow_vpn and length < 8:
+            return NLRI.INVALID, over
+
         # Create Flow with packed bytes - rules will be parsed lazily
         nlri = cls(packed, afi, safi)
 
